@@ -7,6 +7,7 @@
 #include <climits>
 #include <cmath>
 #include <limits>
+#include <sstream>
 #include <unistd.h>
 
 using namespace Opm::EclIO;
@@ -322,11 +323,43 @@ static Arr sym(int s, int rot, const std::string& name) {
     (void)t;
 }
 
+// case "P <fmt> <ops...>": fixed-width CHAR elements (PaddedOutputString<8>, the type the restart/summary writers keep their
+// name buffers in).  One 3-element vector; every sequence of <= 4 operations over {element 1 := value v (7 values incl. empty,
+// 8 characters, over-long), element 1 := copy of element 0, whole vector rebuilt} ; after EVERY operation the vector is
+// written and must read back as the values the reference holds (left adjusted, blank padded, cut at 8 characters).
+static const char* PV[] = {"", "A", "ABCDEFGH", "ABCDEFGHIJ", "P 1", "INJ-01", " LEAD"};
+static std::string pad8(const std::string& v) { std::string o = v.substr(0, 8); o.resize(8, ' '); return o; }
+static void padded_case(int fmt, const std::vector<int>& ops, const std::string& cas) {
+    R->evaluations++;
+    const std::string rp = "{\"case\": " + vf::jstr(cas) + "}";
+    std::vector<Opm::EclIO::PaddedOutputString<8>> v(3);
+    std::vector<std::string> ref = {"FIRST", "", "LAST-ONE"};
+    v[0] = ref[0]; v[2] = ref[2];
+    std::string hs;
+    for (int o : ops) {
+        if (o < 7) { v[1] = std::string(PV[o]); ref[1] = PV[o]; hs += std::string(" [1]='") + PV[o] + "'"; }
+        else if (o == 7) { v[1] = v[0]; ref[1] = ref[0]; hs += " [1]=[0]"; }
+        else { v = std::vector<Opm::EclIO::PaddedOutputString<8>>{Opm::EclIO::PaddedOutputString<8>(ref[0]), Opm::EclIO::PaddedOutputString<8>(ref[1]), Opm::EclIO::PaddedOutputString<8>(ref[2])}; hs += " rebuilt"; }
+        for (int e = 0; e < 3; ++e) if (std::string(v[e].c_str()) != pad8(ref[e])) { R->violation("C07:padded:element", "PaddedOutputString<8> element " + std::to_string(e) + " holds '" + v[e].c_str() + "' after" + hs + ", expected '" + pad8(ref[e]) + "'", rp); return; }
+        const std::string fn = g_dir + (fmt ? "/P.FX" : "/P.X");
+        ::unlink(fn.c_str());
+        try {
+            { Opm::EclIO::EclOutput out(fn, fmt != 0); out.write("NAMES", v); out.write<int>("AFTER", std::vector<int>{1, 2}); }
+            EclFile f(fn); f.loadData();
+            const auto& got = f.get<std::string>("NAMES");
+            bool ok = got.size() == 3; for (int e = 0; ok && e < 3; ++e) { std::string w = pad8(ref[e]); size_t q = w.find_last_not_of(' '); w = q == std::string::npos ? "" : w.substr(0, q + 1); ok = got[e] == w; }
+            if (!ok || f.get<int>("AFTER") != std::vector<int>{1, 2}) { std::string g; for (auto& x : got) g += "'" + x + "' "; R->violation(std::string("C07:padded:") + (fmt ? "fmt" : "bin") + ":readback", "CHAR array written from PaddedOutputString<8> elements reads back as " + g + "after" + hs + " (wanted '" + ref[0] + "' '" + ref[1] + "' '" + ref[2] + "' up to blank padding / 8 characters)", rp); return; }
+        } catch (const std::exception& e) { R->violation(std::string("C07:padded:") + (fmt ? "fmt" : "bin") + ":throws", std::string("writing/reading the CHAR array throws: ") + e.what() + " after" + hs, rp); return; }
+    }
+    R->observe(vf::fnv(cas));
+}
+
 static void do_case(const std::string& c) {
     // case strings:  L <len> <variant> <fmt> <ix> | S <a> <b> <c> <fmt> | D <len> <fmt> <ix>
     char k; int a, b, cc, d, e;
     if (std::sscanf(c.c_str(), "%c %d %d %d %d %d", &k, &a, &b, &cc, &d, &e) < 3) throw std::runtime_error("bad case " + c);
     R->current(c);
+    if (k == 'P') { std::istringstream is(c.substr(1)); int fmt; is >> fmt; std::vector<int> ops; int x; while (is >> x) ops.push_back(x); padded_case(fmt, ops, c); return; }
     if (k == 'L') run_case(len_case(a, b), cc, d, "", c);
     else if (k == 'W') {   // wide C0nn (nn >= 78): first "does not crash" in a child, then the normal oracles
         std::vector<Arr> v; v.push_back(mk(T_C0NN, "WIDE", a, a, b)); v.push_back(mk(T_INTE, "AFTER", 2, 0));
@@ -344,7 +377,7 @@ int main(int argc, char** argv) {
     const char* sc = std::getenv("VERIF_SCRATCH");
     g_dir = std::string(sc ? sc : "/tmp") + "/C07." + std::to_string(getpid());
     std::string cmd = "mkdir -p " + g_dir; if (std::system(cmd.c_str())) return 2;
-    run.rule = "every array length 0..2002 (strings 0..212) x {INTE,REAL,DOUB,LOGI,CHAR,C0nn,MESS} x {formatted,unformatted} x {ECL,IX} with extremes rotated over positions; all sequences of <=3 arrays over a 12-symbol (type,length-class) alphabet; distinct = distinct file byte strings";
+    run.rule = "every array length 0..2002 (strings 0..212) x {INTE,REAL,DOUB,LOGI,CHAR,C0nn,MESS} x {formatted,unformatted} x {ECL,IX} with extremes rotated over positions; all sequences of <=3 arrays over a 12-symbol (type,length-class) alphabet; every sequence of <= 3 (thorough 4) assignments to a reused PaddedOutputString<8> element (7 values incl. empty/over-long, copy, rebuild) written as a CHAR array after every step; distinct = distinct file byte strings";
     run.assumptions = {"reference codec in the harness written from the published Eclipse layout (not from EclIOdata.hpp)", "values outside the extremes alphabet not covered", "lengths >= 2^31 only through size arithmetic (thorough)"};
     if (!run.replay_path.empty()) { do_case(run.replay_path); std::string rm = "rm -rf " + g_dir; std::system(rm.c_str()); return run.finish(); }
 
@@ -363,6 +396,15 @@ int main(int argc, char** argv) {
     for (int a = 0; a < 12; ++a) for (int b = -1; b < 12; ++b) for (int c = -1; c < 12; ++c) {
         if (b < 0 && c >= 0) continue;
         for (int fmt = 0; fmt < 2; ++fmt) { if (!run.mine()) continue; do_case("S " + std::to_string(a) + " " + std::to_string(b) + " " + std::to_string(c) + " " + std::to_string(fmt)); }
+    }
+    // PaddedOutputString element histories: all maximal sequences of length 3 (thorough 4) over 9 operations; every prefix is checked on the way
+    {
+        const int L = run.thorough() ? 4 : 3; std::vector<int> ops;
+        std::function<void()> rec = [&]() {
+            if ((int)ops.size() == L) { if (!run.mine()) return; for (int fmt = 0; fmt < 2; ++fmt) { std::string c = "P " + std::to_string(fmt); for (int o : ops) c += " " + std::to_string(o); do_case(c); } return; }
+            for (int o = 0; o < 9; ++o) { ops.push_back(o); rec(); ops.pop_back(); }
+        };
+        rec();
     }
     // 2^31 size arithmetic (thorough + quick: cheap)
     if (run.shard == 0) {
